@@ -16,9 +16,9 @@ Normalisations (identical on the Go side, see harness/C34/rig_test.go):
   the client's `actualContentLength` when > 0, `0` for POST/PUT/PATCH, otherwise absent (-1);
 * a request whose supplied length disagrees with its declared length is `reqerr` as a whole
   (the client resets the stream at a point that depends on timing; only "no clean EOF" is compared);
-* when the handler stops reading early while the request body does not fit the client's stream
-  write buffer (`wbuf`), the client-side result is `unspec` (races with STOP_SENDING; see finding
-  `early-response-lost`).
+* when the handler stops reading before it has consumed the whole request body, the client-side
+  result is `unspec` (the client's body writer races with the server's STOP_SENDING; see finding
+  `early-response-lost`; frequent with a small stream write buffer `wbuf`, rare with the default).
 -/
 open NetVerif.Driver NetVerif.Model.H3Body
 
@@ -161,7 +161,7 @@ def e2e (s : St) (method path : String) (cl : Int) (nobody : Bool) (h : Fields)
       (optTr s.rp.tr)
     let status := (evs.filterMap fun ev => match ev with | .respHeaders st => some st | _ => none).headD 0
     let total := chunks.flatten.length
-    let early := e == "stopped" && s.wbuf > 0 && total ≥ s.wbuf
+    let early := e == "stopped" && body.length < total
     let ntr := if s.rp.trmode == "d" then distinctNames s.rp.tr else 0
     let cres := if early then "ok unspec" else clientSide s isHead status s.rp.cl s.rp.h ntr (evFrames evs)
     (reqLine, "ok " ++ showWres rs, cres)
